@@ -58,6 +58,19 @@ def dispatch (op : String) (args : List String) : Option String :=
       | (_, some .read) => "err"
       | (l, some .trailingMissing) => showMsgs l ++ " trailing-missing"
       | (l, none) => showMsgs l
+  -- sei.nalu <avc|hevc> <sps description> <NAL unit hex>+ : the code parses the NAL units in order through
+  -- avc.ParseSEINalu / hevc.ParseSEINalu, holds every returned list and renders them all after the last call; the
+  -- typed payloads on these lines are valid for their decoder by construction (the SPS description only selects the
+  -- decoder parameters), so the model answer is the (type, payload) list of `parseSEINalu` for every unit on its own
+  | "sei.nalu", codec :: _ :: hs => do
+      let c ← if codec = "avc" then some Codec.avc else if codec = "hevc" then some Codec.hevc else none
+      let nalus ← hs.mapM fromHex
+      pure (" | ".intercalate (nalus.map fun n =>
+        match parseSEINalu c n with
+        | none => "not-sei"
+        | some (_, some .read) => "err"
+        | some (l, some .trailingMissing) => showMsgs l ++ " trailing-missing"
+        | some (l, none) => showMsgs l))
   | "tc.pl", cs => do
       let clocks ← (cs.filter (· ≠ "none")).mapM parseClock
       pure s!"{toHex (timeCodePayload clocks)} size={timeCodeSize clocks}"
